@@ -7,7 +7,7 @@
    fixed class (KDRandomColorJitter, KDThreeAugment, ...) are leaves whose record contains the members' records. *)
 From Coq Require Import ZArith QArith Qminmax List Bool.
 Import ListNotations.
-From KD Require Import C15.Base C15.gen.Strength C15.Sched C15.Spec C15.Proofs.
+From KD Require Import C15.Base C15.gen.Strength C15.Sched C15.Spec C15.Proofs C15.ProofsInterleave.
 
 (* ---- strength scaling ---- *)
 Theorem scale_one_restores : forall t, tree_wf t -> tree_constructed t -> tree_eq (tree_scale t 1) t.
@@ -132,6 +132,39 @@ Theorem several_iterators_fresh_workers_restart_schedule : forall W B k j nb inn
 Proof. exact fresh_workers_restart. Qed.
 Print Assumptions several_iterators_fresh_workers_restart_schedule.
 
+(* ---- shared augmentation objects, interleaved histories ----
+   W copies of a pipeline, each with K scheduled transforms (cfgs: batch size, announced length, heap cells reached by
+   self.transform.scale_strength) over a heap of augmentation objects (inners0), some shared between scheduled
+   transforms and with an outer composition.  gs is ANY interleaving of "scheduled transform k processes its next
+   sample" (its samples dealt to the copies in full batches round-robin), "somebody calls scale_strength(f) on object j
+   of copy w" and "somebody calls scale_strength(f) on copy w's outer composition".  The model (Sched.v: every call
+   writes schedule(batch) to the shared cells, unconditionally, then applies) produces exactly what the spec
+   (Spec.v ispec_run) says: each call reports its own schedule's value at its own global batch, the cells it reaches
+   are the constructed objects scaled by that value, and every cell always is the constructed object scaled by the
+   last factor anybody gave it. *)
+Theorem scheduled_applies_schedule_value_after_any_interleaving :
+  forall schedules W (cfgs : list scfg) outer inners0 gs,
+  (0 < W)%nat -> Forall (fun c : scfg => 0 < fst (fst c)) cfgs ->
+  ipool_run schedules outer (iinit_pool W cfgs inners0) (route W cfgs (fun _ => O) gs) =
+  ispec_run W cfgs schedules outer inners0 (fun _ => O) (fun _ _ => None) gs.
+Proof. exact ipool_run_interleaved. Qed.
+Print Assumptions scheduled_applies_schedule_value_after_any_interleaving.
+
+(* the same for ONE call, free of the spec's bookkeeping: after any valid history `pre`, the next call of scheduled
+   transform k (batch size B, cells js) is observed with reported value v = schedule_k(n / B) where n is the number of
+   samples k has processed before (count_calls k pre), and every cell it reaches is the constructed object scaled by v *)
+Theorem interleaved_call_reports_and_applies_own_schedule_value :
+  forall schedules W (cfgs : list scfg) outer inners0 pre k B i js post,
+  (0 < W)%nat -> Forall (fun c : scfg => 0 < fst (fst c)) cfgs ->
+  nth_error cfgs k = Some (B, i, js) -> Forall (gstep_valid W (length cfgs)) pre ->
+  let v := schedules k (rr_batch B (Z.of_nat (count_calls k pre))) (n_batches_of i B) in
+  exists h,
+    nth_error (ipool_run schedules outer (iinit_pool W cfgs inners0)
+                         (route W cfgs (fun _ => O) (pre ++ GCall k :: post))) (length pre) = Some (v, h) /\
+    forall j, In j js -> nth_error h j = option_map (fun t => tree_scale t v) (nth_error inners0 j).
+Proof. exact interleaved_call_obs. Qed.
+Print Assumptions interleaved_call_reports_and_applies_own_schedule_value.
+
 (* ---- non-vacuity ---- *)
 Open Scope Q_scope.
 Definition ex_cj : KDColorJitter_st :=
@@ -166,3 +199,17 @@ Proof. vm_compute. reflexivity. Qed.
 Example ex_round_robin : (* W = 3, B = 2: the 5th sample (s = 4) of worker 1 is global sample 14, in global batch 7 *)
   (rr_global 3 2 1 4 = 14 /\ rr_batch 2 14 = 7 /\ rr_owner 3 2 14 = 1 /\ rr_local 3 2 14 = 4)%Z.
 Proof. vm_compute. repeat split; reflexivity. Qed.
+(* two scheduled transforms (ramp up 0, 1/2; ramp down 1, 1/2; batch size 2) share ONE rotation object; view 0, view 1,
+   view 0 again (same batch: same value as its previous call), a manual scale_strength(1), view 0 (next batch):
+   every call reports its own value and the shared object is at exactly that value after it *)
+Definition ex_rot : tree := Leaf (L_KDRandomRotation (KDRandomRotation_mk (- (30 # 1)) (30 # 1) (- (30 # 1)) (30 # 1))).
+Definition ex_scheds : nat -> Z -> Z -> Q :=
+  fun k b _ => Qred (match k with O => inject_Z b * (1 # 2) | _ => 1 - inject_Z b * (1 # 2) end).
+Example ex_interleaved :
+  let run := ipool_run ex_scheds [MSched 0; MSched 1; MInner 0]
+                       (iinit_pool 1 [(2%Z, IUpdates 2, [0%nat]); (2%Z, IUpdates 2, [0%nat])] [ex_rot])
+                       (route 1 [(2%Z, IUpdates 2, [0%nat]); (2%Z, IUpdates 2, [0%nat])] (fun _ => O)
+                              [GCall 0; GCall 1; GCall 0; GScale 0 0 1; GCall 0; GScaleOuter 0 (1 # 4); GCall 1]) in
+  map fst run = [0; 1; 0; 1; 1 # 2; 1 # 4; 1] /\
+  map snd run = map (fun f => [tree_scale ex_rot f]) [0; 1; 0; 1; 1 # 2; 1 # 4; 1].
+Proof. vm_compute. split; reflexivity. Qed.
